@@ -1216,7 +1216,12 @@ def m_streamother(I, recv, a, k, node, kind):
         u = Unk(_mname(I, node), kinds=['bytes'], taint=taint_of(recv) | {'INPUT'}, src=('read', recv, a[0] if a else None))
         ev.data['result'] = u
         return u
-    I.effect('stream-' + _mname(I, node), node, {'stream': recv, 'args': a})
+    ev = I.effect('stream-' + _mname(I, node), node, {'stream': recv, 'args': a})
+    if _mname(I, node) == 'tell':
+        u = Unk('tell', kinds=['int'], taint=taint_of(recv), src=('tell', recv))
+        u.facts.add('>=0')
+        ev.data['result'] = u
+        return u
     return Unk(_mname(I, node), taint=taint_of(recv) | {'INPUT'}, kinds=['bytes'] if _mname(I, node).startswith('read') or _mname(I, node) == 'peek' else None)
 
 
